@@ -149,5 +149,5 @@ def gen_corpus(rng: random.Random, today: dt.date) -> tuple[ZDir, dict]:
                 sec.children.append(sub)
             p.sections.append(sec)
         z.pages[rel] = p
-    pools = {"idents": TAGS, "keys": KEYS + ["ID", "RID", "nokey"], "desc_words": DESC_WORDS, "files": link_names + ["a_b", "axb", "sub/a_b", "nope"], "links": link_names + near_miss, "date_pool": sorted(dates_used), "str_values": STR_VALUES, "int_values": ["0", "10", "42", "100", "007", "25"], "date_values": ["2024-01-01", "2031-03-14", "2031-03-13", "2025-12-31"]}
+    pools = {"idents": TAGS, "keys": KEYS + ["ID", "RID", "nokey"], "desc_words": DESC_WORDS, "files": link_names + ["a_b", "axb", "sub/a_b", "nope"], "links": link_names + near_miss, "date_pool": sorted(dates_used), "str_values": STR_VALUES, "int_values": ["0", "10", "42", "100", "007", "25"], "date_values": ["2024-01-01", "2031-03-14", "2031-03-13", "2025-12-31", "0D", "7D", "1M", "1Y"]}
     return z, pools
